@@ -220,8 +220,15 @@ def run_harness(binp, suite, cases, workdir, timeout_ms=20000, shards=None, tag=
 # ------------------------------------------------------------------------------------------
 # Coq
 
-def coq_make():
-    """regenerate Gen/*.v from the source, then a full (incremental) .vo build"""
+EXEC_TARGETS = ["Exec/Common.vo", "Exec/C18Run.vo", "Exec/MBRun.vo", "Exec/ProtoRun.vo", "Exec/NumRun.vo", "Exec/BandRun.vo",
+                "Model/Stats.vo"]
+
+
+def coq_make(props=None):
+    """regenerate Gen/*.v from the source, then a full .vo build (incremental; no -vos) — of the whole development (props=None: setup),
+    or of what ONE property's obligations consist of: its Props file(s) with everything they depend on, and the executable
+    instances the correspondence runs evaluate. A proof that no longer goes through after Gen/ was regenerated from a changed
+    source thus fails the checks of the properties whose theorems depend on it, not every check."""
     from . import translator
     with Lock("coq"):
         translator.regenerate()
@@ -231,8 +238,10 @@ def coq_make():
             subprocess.run(["coq_makefile", "-f", "_CoqProject", "-o", "Makefile"], cwd=COQ, check=True,
                            capture_output=True)
         t0 = time.time()
-        r = subprocess.run(["make", "-k", "-j%d" % NPROC], cwd=COQ, capture_output=True, text=True, timeout=3000)
-        log("[coq] make: %s in %.1fs" % ("ok" if r.returncode == 0 else "FAILED", time.time() - t0))
+        targets = [] if props is None else ["Props/%s.vo" % q for q in props] + EXEC_TARGETS
+        r = subprocess.run(["make", "-k", "-j%d" % NPROC] + targets, cwd=COQ, capture_output=True, text=True, timeout=3000)
+        log("[coq] make%s: %s in %.1fs" % ("" if props is None else " (" + ", ".join(props) + " + executable instances)",
+                                           "ok" if r.returncode == 0 else "FAILED", time.time() - t0))
         return r.returncode == 0, (r.stdout + r.stderr)[-6000:]
 
 
@@ -488,7 +497,7 @@ class Run:
 
 def proof_obligations(run, prop, extra_pins=()):
     """make + pin file(s) + audit; records coverage; returns True when all proof obligations check"""
-    ok, out = coq_make()
+    ok, out = coq_make([prop] + list(extra_pins))
     audit = audit_sources()
     pin = {"obligations": 0, "discharged": 0, "axioms": [], "ok": False, "output": ""}
     if ok:
@@ -500,7 +509,7 @@ def proof_obligations(run, prop, extra_pins=()):
                    "ok": pin["ok"] and e["ok"], "output": pin["output"] + e["output"]}
     run.coverage.update({
         "obligations": max(pin["obligations"], 1), "discharged": pin["discharged"],
-        "checker_cmd": "make -C coq (coqc 8.16.1, full .vo build) && coqc coq/Pins/%s.v (Check <thm> : <statement>; Print Assumptions)" % "{,".join([prop] + list(extra_pins)),
+        "checker_cmd": "make -C coq Props/<property>.vo Exec/*.vo (coqc 8.16.1, full .vo build of the property's dependency cone) && coqc coq/Pins/%s.v (Check <thm> : <statement>; Print Assumptions)" % "{,".join([prop] + list(extra_pins)),
         "trusted_base": [
             "Coq 8.16.1 kernel incl. vm_compute (no native_compute)",
             "axioms reported by Print Assumptions for the pinned theorems: %s" % (", ".join(pin["axioms"]) or "none (closed under the global context)"),
